@@ -15,9 +15,12 @@ def _alarm(signum, frame):
     raise CaseTimeout("case exceeded %.0f s horizon" % HORIZON_S)
 
 
-def _init():
+def _init(quiet=False):
     from . import stage
     stage.workdir()
+    if quiet:  # SuperLU prints 'dgstrf info' on singular matrices from C; workers report only through the pipe
+        fd = os.open(os.devnull, os.O_WRONLY)
+        os.dup2(fd, 1)
     signal.signal(signal.SIGALRM, _alarm)
     warnings.simplefilter("ignore")
 
@@ -55,7 +58,7 @@ def run_cases(fn, specs, seed=0, procs=None, chunksize=None):
     if chunksize is None:
         chunksize = max(1, min(64, len(specs) // (procs * 8)))
     ctx = mp.get_context("fork")
-    with ctx.Pool(procs, initializer=_init) as pool:
+    with ctx.Pool(procs, initializer=_init, initargs=(True,)) as pool:
         for i, r in pool.imap_unordered(_call, [(i, specs[i]) for i in order], chunksize=chunksize):
             out[i] = r
     return out
